@@ -186,7 +186,7 @@ class FX(object):
     pass
 
 
-FIXTURE_NAMES = ['lit', 'I_shl', 'I_add', 'I_push', 'I_pop', 'I_moves', 'I_sete', 'I_div', 'w', 'T', 'U', 'Q', 'pc', 'regs', 'sys.path']
+FIXTURE_NAMES = ['lit', 'I_shl', 'I_add', 'I_push', 'I_pop', 'I_moves', 'I_sete', 'I_div', 'w', 'T', 'U', 'Q', 'C', 'pc', 'regs', 'sys.path']
 
 
 def build_fixtures():
@@ -196,7 +196,7 @@ def build_fixtures():
     f.lit = {'b_mov': bytes.fromhex('8b4508'), 'b_shl': bytes.fromhex('d3e0'), 'b_in': bytes.fromhex('ec'),
              'b_movs': bytes.fromhex('a4'), 't_mov': 'mov eax, [ebx+4]', 't_shl': 'shl eax, cl',
              't_in': 'in al, dx', 't_att': 'movl 4(%ebx), %eax', 't_bad': 'mov eax, [-eax]',
-             't_syn': 'mov eax ]'}
+             't_syn': 'mov eax ]', 'b_fsm': bytes.fromhex('648b03'), 'b_m': bytes.fromhex('8b03'), 'b_m8': bytes.fromhex('8a03')}
     dis = A.x86mnemo.dis
     f.I_shl = dis(bytes.fromhex('d3e0'))     # operand 2 is the table-owned r_cl dictionary itself
     f.I_add = dis(bytes.fromhex('83c001'))
@@ -209,6 +209,10 @@ def build_fixtures():
     f.T = E.ExprOp('+', E.ExprOp('+', S.eax, f.w), E.ExprInt32(0))    # shared tree over a module-level register and w
     f.U = E.ExprOp('+', f.w, E.ExprInt32(1))
     f.Q = E.ExprMem(E.ExprOp('+', S.esp, E.ExprInt32(4)))
+    # a composition of adjacent slices of one source (what 'or al, al' lifts to), used twice in one tree
+    lo, hi = E.ExprSlice(S.edx, 0, 8), E.ExprSlice(S.edx, 8, 16)
+    f.C = E.ExprOp('^', E.ExprCompose([(lo, 0, 8), (hi, 8, 16), (E.ExprSlice(S.edx, 16, 32), 16, 32)]),
+                   E.ExprCompose([(hi, 0, 8), (E.ExprSlice(f.w, 8, 32), 8, 32)]))
     f.pc = E.ExprInt32(2)
     f.regs = [v for k, v in sorted(vars(S).items()) if isinstance(v, E.Expr)]
     f.m = [None, EH.x86_machine(), EH.x86_machine()]
@@ -237,7 +241,7 @@ def build_fixtures():
         if isinstance(e, E.ExprCompose):
             for a, _, _ in e.args:
                 walk(a)
-    for e in [f.w, f.T, f.U, f.Q, f.pc] + f.regs:
+    for e in [f.w, f.T, f.U, f.Q, f.C, f.pc] + f.regs:
         walk(e)
     for m in f.m[1:]:
         for k, v in sorted(m.pool.pool_id.items(), key=lambda kv: kv[0].name):
@@ -346,6 +350,11 @@ def _calls():
         'dis_shl': ('pure', 0, lambda f: mn.dis(f.lit['b_shl'])),
         'dis_in': ('pure', 0, lambda f: mn.dis(f.lit['b_in'])),
         'dis_movs': ('pure', 0, lambda f: mn.dis(f.lit['b_movs'])),
+        'dis_fsm': ('pure', 0, lambda f: mn.dis(f.lit['b_fsm'])),
+        'dis_m': ('pure', 0, lambda f: mn.dis(f.lit['b_m'])),
+        'dis_m8': ('pure', 0, lambda f: mn.dis(f.lit['b_m8'])),
+        'simp_C': ('pure', 0, lambda f: H.expr_simp(f.C)),
+        'eval_C_m2': ('read', 2, lambda f: ev(f, 2, f.C)),
         'asm_mov': ('pure', 0, lambda f: asm(f, 't_mov')),
         'asm_shl': ('pure', 0, lambda f: asm(f, 't_shl')),
         'asm_in': ('pure', 0, lambda f: asm(f, 't_in')),
